@@ -701,6 +701,26 @@ class SArr:
     def __matmul__(self, o):
         return matmul(self, o)
 
+    def _cmp(self, o, f):
+        def g(a, b):
+            r = f(LF.of(a).value()._cmp_real(), LF.of(b).value()._cmp_real())
+            return LF(C(Sym(z3.If(core._lb(r), z3.IntVal(1), z3.IntVal(0)))))
+        r = self._binop(o, g)
+        r.dtype = BDT
+        return r
+
+    def __lt__(self, o):
+        return self._cmp(o, lambda a, b: a < b)
+
+    def __le__(self, o):
+        return self._cmp(o, lambda a, b: a <= b)
+
+    def __gt__(self, o):
+        return self._cmp(o, lambda a, b: a > b)
+
+    def __ge__(self, o):
+        return self._cmp(o, lambda a, b: a >= b)
+
     def __len__(self):
         if not self.shape:
             raise TypeError("len() of unsized object")
@@ -1149,9 +1169,27 @@ def sum_(a, axis=None, keepdims=False):
             for d, c in zip(concrete_axes, combo):
                 full[d] = z3.IntVal(c)
             v = snap(tuple(full))
+            if binders and not v.const.is_zero():
+                if v.terms:
+                    raise Unsupported("sum over a symbolic extent of a mixed value/linear-form element")
+                # a sum of VALUES over a symbolic extent: an uninterpreted function of the kept indices
+                # (assumed numpy contract: it is a function of the summand array and the kept indices only)
+                tag = _value_sum_tag(a, tuple(axes))
+                args = [full[d] for d in range(len(ashape)) if d not in axes]
+                sorts = [z3.IntSort()] * len(args) + [z3.RealSort()]
+                sre = z3.Function("Sum<%s>.re" % tag, *sorts)(*args)
+                sim = z3.Function("Sum<%s>.im" % tag, *sorts)(*args)
+                bvars = [b.v for b in binders]
+                re_nonneg = _provable(v.const.re >= 0)
+                if re_nonneg:
+                    define(sre >= 0)          # a sum of non-negative reals is non-negative
+                    # ... and it bounds each of its terms: instantiate at every index that is asked for later
+                    a.__dict__.setdefault("_sum_terms", {})[tag] = (v.const.re, bvars, args, sre)
+                if _provable(v.const.im == 0):
+                    sim = R0
+                acc = acc + LF(C(sre, sim))
+                continue
             if binders:
-                if not v.const.is_zero():
-                    raise Unsupported("sum over a symbolic extent of a non-linear-form value")
                 v = LF(C0, [Term(tuple(binders) + t.binders, tuple(b.range_cond() for b in binders) + t.guard,
                                  t.coef, t.atom, t.idx, t.conj) for t in v.terms])
             acc = acc + v
@@ -1161,6 +1199,16 @@ def sum_(a, axis=None, keepdims=False):
         # numpy returns a SCALAR (numpy scalar type, np.isscalar -> True), not a 0-d array, for a full reduction
         return el(())
     return r
+
+
+_VSUM = {}
+
+
+def _value_sum_tag(a, axes):
+    key = (id(a), axes)
+    if key not in _VSUM:
+        _VSUM[key] = "%d" % len(_VSUM)
+    return _VSUM[key] + ":" + ",".join(map(str, axes))
 
 
 def tile(a, reps):
@@ -1476,6 +1524,19 @@ def _np_max(a, axis=None):
     return a
 
 
+def _np_clip(a, lo, hi):
+    def f(v):
+        x = v.value()._cmp_real()
+        l, h = LF.of(lo).value()._cmp_real() if not isinstance(lo, SArr) else None, LF.of(hi).value()._cmp_real() if not isinstance(hi, SArr) else None
+        return LF(C(Sym(z3.If(x.t < l.t, l.t, z3.If(x.t > h.t, h.t, x.t)))))
+    if isinstance(lo, SArr) or isinstance(hi, SArr):
+        lo_a = lo if isinstance(lo, SArr) else SArr.full((), lo)
+        hi_a = hi if isinstance(hi, SArr) else SArr.full((), hi)
+        t = broadcast2(a, lo_a, lambda v, l: LF(C(Sym(z3.If(v.value()._cmp_real().t < l.value()._cmp_real().t, l.value()._cmp_real().t, v.value()._cmp_real().t)))))
+        return broadcast2(t, hi_a, lambda v, h: LF(C(Sym(z3.If(v.value()._cmp_real().t > h.value()._cmp_real().t, h.value()._cmp_real().t, v.value()._cmp_real().t)))))
+    return elementwise(a, f)
+
+
 def _np_size(a):
     return a.size if isinstance(a, SArr) else 1
 
@@ -1524,6 +1585,7 @@ class _Numpy(_NS):
     floor = staticmethod(core.sym_floor)
     linspace = staticmethod(_np_linspace)
     asarray = staticmethod(_np_asarray)
+    clip = staticmethod(_np_clip)
     squeeze = staticmethod(_np_squeeze)
     max = staticmethod(_np_max)
     amax = staticmethod(_np_max)
@@ -2046,3 +2108,106 @@ def _commit_loops():
 
 
 SArr._loopstore = _loopstore
+
+
+# ----------------------------------------------------------------------------- nb.vectorize: elementwise map of a scalar kernel
+class _NB:
+    """stands for numba in modules whose @nb.vectorize kernels are verified: the scalar Python body is explored on a
+    generic element (all its internal paths), merged into one if-then-else expression, and mapped over the array."""
+
+    @staticmethod
+    def vectorize(*a, **k):
+        if len(a) == 1 and callable(a[0]) and not k:
+            return _vectorized(a[0])
+        return lambda f: _vectorized(f)
+
+    @staticmethod
+    def jit(*a, **k):
+        if len(a) == 1 and callable(a[0]) and not k:
+            return a[0]
+        return lambda f: f
+
+
+NB = _NB()
+
+
+def _vectorized(f):
+    def wrapper(*args):
+        arrs = [x for x in args if isinstance(x, SArr)]
+        if not arrs:
+            return f(*args)
+        shape = arrs[0].shape
+        for x in arrs[1:]:
+            shape = broadcast_shapes(shape, x.shape)
+        n = len(shape)
+        g = [z3.Int(core.fresh_name("g")) for _ in range(n)]
+        outer = cur()
+        snaps = [(x._snapshot(), _bmap(x.shape, n)) if isinstance(x, SArr) else None for x in args]
+
+        def scalar_args():
+            out = []
+            for x, sn in zip(args, snaps):
+                if sn is None:
+                    out.append(x)
+                else:
+                    v = sn[0](sn[1](tuple(g))).value()
+                    out.append(Sym(v.re) if v.is_real() else v)
+            return out
+        # explore the scalar body on the generic element; inner paths do not fork the caller
+        seed = outer.hyps()
+
+        def run():
+            for h in seed:
+                core.assume(h)
+            r = f(*scalar_args())
+            return C.of(r) if not isinstance(r, C) else r
+        inner = core.explore(run, max_paths=64)
+        val_re, val_im = None, None
+        templates = []
+        consts = []
+        for pr in inner:
+            if pr.kind != "return":
+                raise Unsupported("vectorized kernel raises on some path: %r" % (pr.value,))
+            cond = z3.And(*pr.pc[len(seed):]) if pr.pc[len(seed):] else z3.BoolVal(True)
+            val_re = pr.value.re if val_re is None else z3.If(cond, pr.value.re, val_re)
+            val_im = pr.value.im if val_im is None else z3.If(cond, pr.value.im, val_im)
+            for d in pr.defs:
+                templates.append(z3.Implies(cond, d))
+            for sname, hy, goal in pr.side:
+                outer.side.append(("kernel:" + sname, outer.hyps(), z3.Implies(z3.And(*pr.pc[len(seed):]) if pr.pc[len(seed):] else z3.BoolVal(True), goal)))
+        # skolemise the witnesses (fresh constants created inside the kernel) as functions of the element index
+        names = set()
+
+        def collect(e):
+            if z3.is_const(e) and e.decl().kind() == z3.Z3_OP_UNINTERPRETED and "!" in str(e) and not any(e.eq(x) for x in g):
+                names.add(e)
+            for ch in e.children():
+                collect(ch)
+        for t in templates:
+            collect(t)
+        outer_consts = set()
+        for h in seed:
+            def oc(e):
+                if z3.is_const(e) and e.decl().kind() == z3.Z3_OP_UNINTERPRETED:
+                    outer_consts.add(e.get_id())
+                for ch in e.children():
+                    oc(ch)
+            oc(h)
+        sk = []
+        for w in names:
+            if w.get_id() in outer_consts:
+                continue
+            fn = z3.Function("sk<%s>" % w, *([z3.IntSort()] * n + [w.sort()]))
+            sk.append((w, fn(*g)))
+        if sk:
+            val_re, val_im = z3.substitute(val_re, *sk), z3.substitute(val_im, *sk)
+            templates = [z3.substitute(t, *sk) for t in templates]
+
+        def el(k):
+            sub = list(zip(g, [_lift(x) for x in k]))
+            for t in templates:
+                define(z3.substitute(t, *sub))
+            return LF(C(z3.substitute(val_re, *sub), z3.substitute(val_im, *sub)))
+        return SArr(shape, el, arrs[-1].dtype)
+    wrapper.__wrapped__ = f
+    return wrapper
